@@ -18,6 +18,65 @@ TRUSTED = ["rustc MIR lowering", "generic back-tracking driver (checked under C1
 ASSUMPTIONS = []
 
 
+def implications(ctx, g):
+    """shape of the commutation closure: every far-apart index (symmetric test) is scanned for every queued entry, a closed orbit with
+    head != tail rejects, a single gap is filled and re-queued unconditionally, `true` only when the queue is empty"""
+    ctx.clauses.append("commutation closure: symmetric far-apart test, all indices, contradiction rejects, deductions applied and re-queued (T3/T4)")
+    M_ = "generators::dset_generators::"
+    b = ctx.body(M_ + "check_and_apply_implications")
+    ctx.scan([b])
+    scans = list(b.calls(exact=M_ + "scan_orbit"))
+    ctx.floor("scan_orbit calls in check_and_apply_implications", len(scans), 1)
+    for bi, t in scans:
+        a = [norm(b.origin(x), g) for x in t["args"]]
+        i_t, j_t = a[1], a[2]
+        r = loop_range_of_payload(b, b.origin(t["args"][2]), g)
+        okr = r is not None and r[0] == ("int", 0) and r[2] and r[1][0] in ("call", "field") and ("dim" in str(r[1]))
+        ctx.require(okr, "T4-commutation-all-indices", b.name, "j-range", "the partner index ranges over 0..=dim()", "the partner index does not range over 0..=dim(): %s" % (r and (show(r[0], 1), show(r[1], 1)[:40], r[2]),), b.span_of(bi))
+        sym = False
+        for at in b.facts_at(bi):
+            at = atom_norm(at, g)
+            if at[0] == "rel" and at[1] in ("Lt", "Le"):
+                lo, x = at[2], at[3]
+                if lo[0] == "int" and ((at[1] == "Lt" and lo[1] == 1) or (at[1] == "Le" and lo[1] == 2)):
+                    if x[0] == "call" and (x[1].endswith("::abs_diff") or x[1].endswith("::abs")) and contains(x, lambda s: s == i_t) and contains(x, lambda s: s == j_t):
+                        sym = True
+        ctx.ob("T3-commutation-symmetric", b.name, "scan_orbit<-|i - j| > 1", "ok" if sym else "violation",
+               "an orbit is scanned for every index j with |i - j| > 1 (symmetric test)" if sym else
+               "the far-apart test guarding the orbit scan is not the symmetric |i - j| > 1: commutation with lower (or higher) indices is never checked, non-commuting sets are generated", b.span_of(bi))
+        lb = loop_containing(b, bi)
+    res = [norm(b.local_origin(t["dest"]["l"]), g) for bi, t in scans if not t["dest"]["p"]]
+    def fld(s, i):
+        return ("field", s, str(i))
+    falses = [bi for bi, si, s in b.assigns() if s["place"]["l"] == 0 and norm(b.rv_origin(s["rv"]), g) == ("int", 0)]
+    trues = [bi for bi, si, s in b.assigns() if s["place"]["l"] == 0 and norm(b.rv_origin(s["rv"]), g) == ("int", 1)]
+    okc = False
+    for bi in falses:
+        fa = [atom_norm(a, g) for a in b.facts_at(bi)]
+        for s in res:
+            if any(implies(h, ("rel", "Eq", fld(s, 2), ("int", 0))) for h in fa) and any(implies(h, ("rel", "Ne", fld(s, 0), fld(s, 1))) for h in fa):
+                okc = True
+                ctx.require(not (b.fwd(bi) & set(trues)), "T3-commutation-contradiction", b.name, "false-is-final", "no `true` is reachable after a contradiction", "after a contradiction control can still reach `true`")
+    ctx.require(okc, "T3-commutation-contradiction", b.name, "gap==0 && head!=tail -> false", "a closed 4-cycle scan with head != tail rejects", "no `return false` on gap == 0 && head != tail")
+    sets = [(bi, [norm(b.origin(x), g) for x in t["args"]]) for bi, t in b.calls(exact="dsets::PartialDSet::set")]
+    pbs = [(bi, norm(b.origin(t["args"][1]), g)) for bi, t in b.calls("VecDeque::<T, A>::push_back")]
+    okd = False
+    for bi, a in sets:
+        for s in res:
+            if a[1:] == [fld(s, 3), fld(s, 0), fld(s, 1)]:
+                fa = [atom_norm(x, g) for x in b.facts_at(bi)]
+                g1 = any(implies(h, ("rel", "Eq", fld(s, 2), ("int", 1))) for h in fa)
+                lp = loop_containing(b, bi)
+                rq = [pb for pb, v in pbs if v == ("agg", "tuple", (fld(s, 3), fld(s, 0)))]
+                okq = lp is not None and bool(rq) and any(must_pass_through(b, bi, pb, lp[0]) for pb in rq)
+                okd = g1 and okq
+    ctx.require(okd, "T3-commutation-deduction", b.name, "gap==1 -> set(k, head, tail); push_back((k, head))", "a single missing entry is filled and re-queued on every path",
+                "the forced entry of a 4-cycle with one gap is not set(k, head, tail) under gap == 1 and re-queued unconditionally as (k, head)")
+    okt = bool(trues) and all(any(a[0] == "bool" and is_call(a[1], "is_empty") and a[2] is True for a in b.facts_at(bi)) or
+                              any(atom_norm(a, g)[0] == "variant" and atom_norm(a, g)[2] == 0 for a in b.facts_at(bi)) for bi in trues)
+    ctx.require(okt, "T3-commutation-exhaustive", b.name, "true<-queue empty", "`true` only when the work queue is empty", "check_and_apply_implications can return true while entries are still queued")
+
+
 def run(ctx):
     g = ctx.facts.getters()
     ch = ctx.body(BT + "children")
@@ -100,6 +159,7 @@ def run(ctx):
         ctx.ob("T3-per-child-state", ch.name, "loop-carried state", "ok" if not extra else "violation",
                "only the result vector and the two scratch renumbering buffers are carried between candidates" if not extra else
                "state %s is carried from one candidate image to the next" % extra)
+    implications(ctx, g)
     ctx.clauses.append("only complete D-sets are emitted (T3)")
     es = [(bi, si, s) for bi, si, s in ex.assigns() if s["place"]["l"] == 0 and s["rv"]["k"] == "aggregate" and s["rv"].get("variant") == "Some"]
     ctx.floor("Some(..) in DSet extract", len(es), 1)
